@@ -14,10 +14,19 @@ UNITS = [
       functions=["secp256k1_sha256_write"], solver="cadical", timeout=600, min_obl=50, unwind=130, replay=False,
       note="two-write lemma over the enforced stream contract: write(a);write(b) has the stream postcondition of write(a||b), all la, lb, bytes"),
     U("C05.sha256_transform_loop", ["C05"], "harness/C05/hash_transform.c", "h_transform", replace=["secp256k1_sha256_transform_impl"],
-      assumed=["secp256k1_sha256_transform_impl (one-block compression: frame s[0..7] + ghost call log)"], loops=True,
+      assumed=["secp256k1_sha256_transform_impl (one-block compression: frame s[0..7] + ghost call log)"],
+      loop_contracts={"secp256k1_sha256_transform": {"while (n_blocks--)": {
+          "assigns": "n_blocks, blocks64, verif_tr_calls, verif_tr_ptr, verif_tr_state, __CPROVER_object_upto(state, 32)",
+          "invariants": "n_blocks <= __CPROVER_loop_entry(n_blocks)"
+                        " && blocks64 == __CPROVER_loop_entry(blocks64) + 64 * (__CPROVER_loop_entry(n_blocks) - n_blocks)"
+                        " && verif_tr_calls == __CPROVER_loop_entry(verif_tr_calls) + (__CPROVER_loop_entry(n_blocks) - n_blocks)"
+                        " && ((verif_tr_watch >= __CPROVER_loop_entry(verif_tr_calls) && verif_tr_watch < verif_tr_calls)"
+                        " ? (verif_tr_ptr == __CPROVER_loop_entry(blocks64) + 64 * (verif_tr_watch - __CPROVER_loop_entry(verif_tr_calls)) && verif_tr_state == state)"
+                        " : (verif_tr_ptr == __CPROVER_loop_entry(verif_tr_ptr) && verif_tr_state == __CPROVER_loop_entry(verif_tr_state)))",
+          "decreases": "n_blocks"}}},
       functions=["secp256k1_sha256_transform"], timeout=300, min_obl=20, unwind=10, replay=False,
-      closed_by="loop contract (hooks/C05_hash_transform_loop.diff): base, step, decreases",
-      note="n_blocks symbolic (<= 2^40); needs the loop-contract hook in src/hash_impl.h"),
+      closed_by="loop contract on the n_blocks loop (engine-supplied --loop-contracts-file, no /repo edit): base, step, decreases",
+      note="n_blocks symbolic (<= 2^40)"),
     U("C05.sha256_finalize", ["C05"], "harness/C05/hash_finalize.c", "h_finalize", assumed=ORACLE,
       functions=["secp256k1_sha256_finalize", "secp256k1_sha256_write", "secp256k1_write_be32"], timeout=600, min_obl=50, unwind=130, replay=False,
       note="padding lemma on the real finalize+write: bytes symbolic < 2^61; compression abstracted by the logging oracle"),
